@@ -837,6 +837,34 @@ class _PropEval:
         return None
 
 
+def _single_step_of_index(E, v, traj):
+    """`T.index[a] - T.index[b]` (constants a, b), `np.diff(T.index)[k]`, or a mean / median /
+    min / max of np.diff(T.index): a single number standing for every gap of the time index"""
+    idx = '%s.index' % traj
+
+    def is_idx_elem(e):
+        return isinstance(e, ast.Subscript) and norm_text(e.value) in (idx, idx + '.values') and \
+            norm_text(e.slice).lstrip('-').isdigit()
+
+    def is_diff(e):
+        return isinstance(e, ast.Call) and E.res(e.func) == 'numpy.diff' and e.args and \
+            norm_text(e.args[0]) in (idx, idx + '.values')
+    if isinstance(v, ast.BinOp) and isinstance(v.op, ast.Sub) and is_idx_elem(v.left) and \
+            is_idx_elem(v.right):
+        return True
+    if isinstance(v, ast.Subscript) and is_diff(v.value) and \
+            norm_text(v.slice).lstrip('-').isdigit():
+        return True
+    if isinstance(v, ast.Call) and v.args and is_diff(v.args[0]) and \
+            (E.res(v.func) or '') in ('numpy.mean', 'numpy.median', 'numpy.min', 'numpy.max',
+                                       'numpy.amin', 'numpy.amax', 'builtins.min', 'builtins.max'):
+        return True
+    if isinstance(v, ast.Call) and isinstance(v.func, ast.Attribute) and \
+            v.func.attr in ('mean', 'min', 'max') and is_diff(v.func.value):
+        return True
+    return False
+
+
 def prop_consist(ctx):
     ctx.rule('PROP-CONSIST', 'propagate_errors: the one-step map x[i+1] = Phi x[i] + u is consistent '
              'with x\' = F x + B_gyro e_g + B_accel e_a (coefficient of dt^0 is x, of dt^1 is the '
@@ -920,6 +948,19 @@ def prop_consist(ctx):
             if isinstance(t, ast.Name) and isinstance(v, ast.Call) and \
                     E.res(v.func) == 'numpy.diff' and v.args and \
                     norm_text(v.args[0]) == '%s.index' % traj:
+                E.env[t.id] = E.P(A.ident(), 1)
+                continue
+            if isinstance(t, ast.Name) and _single_step_of_index(E, v, traj):
+                # one number for all intervals: the first gap, or a mean / median / extreme of the
+                # gaps.  The recursion then propagates every interval over that length, which is
+                # the interval between the propagated rows only on a uniform grid (round-9 seed
+                # C04-propagation-first-interval-only)
+                ctx.ob('PROP-CONSIST', False, None, 'each interval is propagated over its own '
+                       'length', f=f, node=st, key='step-per-interval',
+                       why='`%s` is one step length for the whole table: every interval [t_i, '
+                           't_i+1] is propagated over it instead of over t_i+1 - t_i, so on a '
+                           'non-uniform time index the propagated errors are those of another '
+                           'time grid' % norm_text(st)[:80])
                 E.env[t.id] = E.P(A.ident(), 1)
                 continue
             if isinstance(t, ast.Name) and isinstance(v, ast.Call) and \
